@@ -7,6 +7,7 @@
 mod util;
 mod c18;
 mod c12;
+mod c10;
 
 fn main() {
     // silence the default panic message: panics are observations here
@@ -20,6 +21,7 @@ fn main() {
     match args[1].as_str() {
         "c18" => c18::run(rest),
         "c12" => c12::run(rest),
+        "c10" | "c11" => c10::run(rest),
         other => {
             eprintln!("unknown subcommand {other}");
             std::process::exit(2);
